@@ -506,8 +506,8 @@ const char * Context::language()
 
 double Context::random(double max)
 {
-  static std::minstd_rand r;
-  static bool seeded = false;
+  static thread_local std::minstd_rand r;
+  static thread_local bool seeded = false;
   if (!seeded)
   {
     seeded = true;
